@@ -21,7 +21,7 @@ let parse_script s =
   else List.map (fun t ->
       let n () = n_of_string (String.sub t 1 (String.length t - 1)) in
       match t.[0] with
-      | 'a' -> TA (n ()) | 'd' -> TD | 'g' -> TG (n ()) | 's' -> TS (n ()) | 'k' -> TK | 't' -> TT | 'z' -> TZ (n ())
+      | 'a' -> TA (n ()) | 'd' -> TD | 'g' -> TG (n ()) | 's' -> TS (n ()) | 'k' -> TK | 't' -> TT | 'z' -> TZ (n ()) | 'r' -> TR
       | _ -> failwith ("script token " ^ t)) (String.split_on_char ',' s)
 
 let kind_of_letter = function "B" -> Bytes | "C" -> Chars | "Y" -> Cycles | "I" -> Items | s -> failwith ("kind " ^ s)
